@@ -533,3 +533,124 @@ def relocation_layout(rec, F):
             if not ok:
                 rec.finding(R, "F6.moved/%s" % fn.name, "%s records in the abandoned block the capacity of the NEW allocation (or a value not derived from the old capacity): the stub is later sized and deallocated with a layout it was not allocated with" % fn.name, loc=loc_of(t["sp"]), fn=fn.path)
     rec.floor(R, "mark_moved call sites", n, 1)
+
+
+# ---------------------------------------------------------------------------
+# F9.grow — growth makes progress
+
+def _leaves(fn, o, depth=0, seen=None):
+    """root locals (arguments, call results) an operand is computed from"""
+    seen = seen if seen is not None else set()
+    out = set()
+    p = op_place(o) if isinstance(o, dict) and ("copy" in o or "move" in o) else None
+    if p is None:
+        return out
+    l = p["l"]
+    if l in seen or depth > 12:
+        return out
+    seen.add(l)
+    if 0 < l <= fn.argc:
+        out.add(("arg", l))
+        return out
+    defs = []
+    for bi, si, s in fn.stmts():
+        if s["d"]["l"] == l:
+            defs.append(s)
+    cds = [t for _, t in fn.calls() if t["dest"]["l"] == l]
+    if cds and not defs:
+        out.add(("call", l))
+        return out
+    for s in defs:
+        for q in sem.places_in_rvalue(s["r"]):
+            out |= _leaves(fn, {"copy": q}, depth + 1, seen)
+    for t in cds:
+        out.add(("call", l))
+    return out
+
+
+def growth_progress(rec, F):
+    R = rec.rule("F9.grow", "wherever a collection grows because `needed > capacity`, the capacity it allocates depends on `needed` (max(needed, 2*cap) or similar), not on the old capacity alone: doubling a capacity of 0 allocates nothing and the element is then written past the allocation")
+    n = 0
+    for fn in F.all_fns():
+        if fn.crate != "laythe_core" or "::test" in fn.path or not re.search(r"laythe_core/src/(collections/|object/list)", fn.file or ""):
+            continue
+        for bi, blk in enumerate(fn.blocks):
+            t = blk["t"]
+            if t["k"] != "switch" or t.get("ty") != "bool" or bi not in fn.reachable:
+                continue
+            l = op_local(t["on"])
+            sd = fn.single_def(l) if l is not None else None
+            if not sd or sd[0] != "assign" or sd[1]["k"] != "bin" or sd[1]["op"] not in ("Gt", "Lt", "Ge", "Le"):
+                continue
+            r = sd[1]
+            a, b = r["a"], r["b"]
+
+            def names(lv):
+                out = set()
+                for kind, l_ in lv:
+                    if kind == "arg":
+                        out.add(fn.local_name(l_))
+                    else:
+                        for _, t_ in fn.calls():
+                            if t_["dest"]["l"] == l_:
+                                out.add(lastseg(t_["f"]))
+                return out
+            la, lb = _leaves(fn, a), _leaves(fn, b)
+            ca = any(re.fullmatch(r"cap|capacity|old_cap", x) for x in names(la))
+            cb = any(re.fullmatch(r"cap|capacity|old_cap", x) for x in names(lb))
+            capside = None
+            if cb and not (ca and not (la - lb)):
+                capside, need = b, a
+                grow_when = r["op"] in ("Gt", "Ge")
+            elif ca:
+                capside, need = a, b
+                grow_when = r["op"] in ("Lt", "Le")
+            if capside is None:
+                continue
+            lc, ln_ = _leaves(fn, capside), _leaves(fn, need)
+            only_need = ln_ - lc
+            if not only_need:
+                continue
+            tgt = [dst for v, dst in t["targets"] if v == "0"]
+            false_t = tgt[0] if tgt else None
+            true_t = t["otherwise"]
+            start = true_t if grow_when else false_t
+            other = false_t if grow_when else true_t
+            if start is None:
+                continue
+            region = sem.region_from_edge(fn, start) - sem.region_from_edge(fn, other)
+            seeds_c = set(x[1] for x in lc)
+            seeds_n = set(x[1] for x in only_need)
+            tc = sem.forward_taint(fn, seeds_c)
+            tn = sem.forward_taint(fn, seeds_n)
+            for bj in sorted(region):
+                u = fn.blocks[bj]["t"]
+                if u["k"] != "call" or u["f"].startswith("core::") or "panic" in u["f"]:
+                    continue
+                argl = [(op_place(x) or {}).get("l") for x in u["args"]]
+                # a capacity-shaped argument: arithmetic on the old capacity
+                cap_arith = False
+                for x in u["args"]:
+                    lx = op_local(x)
+                    hops = 0
+                    while lx is not None and lx in tc and hops < 8:
+                        ds = fn.defs.get(lx, [])
+                        if len(ds) != 1:
+                            break
+                        if ds[0][0] == "call":
+                            cap_arith = lastseg(ds[0][1]["f"]) in ("max", "min", "saturating_mul", "saturating_add", "checked_mul", "next_power_of_two", "wrapping_mul")
+                            break
+                        if ds[0][1]["k"] in ("bin", "checked"):
+                            cap_arith = True
+                            break
+                        ps = sem.places_in_rvalue(ds[0][1])
+                        lx = ps[0]["l"] if len(ps) == 1 else None
+                        hops += 1
+                if not cap_arith:
+                    continue
+                n += 1
+                ok = any(x in tn for x in argl if x is not None)
+                rec.inst(R, "%s: %s(..) after `needed > cap`" % (fn.name, lastseg(u["f"])), ok=ok, loc=loc_of(u["sp"]))
+                if not ok:
+                    rec.finding(R, "F9.grow/%s/%s" % (fn.path, lastseg(u["f"])), "%s grows by calling %s with a capacity computed from the old capacity only, inside `if needed > cap`: with capacity 0 (e.g. a list collected from an empty iterator) the new allocation is no larger and the element is written past it" % (fn.path, lastseg(u["f"])), loc=loc_of(u["sp"]), fn=fn.path)
+    rec.floor(R, "growth sites", n, 1)
